@@ -237,6 +237,18 @@ def check_case(case, rec):
             # unseeded named distribution: the documented samples are the ones the object exposes afterwards
             wf = Wavefront(lens, fields=[(0.0, Hy)], wavelengths=[wl], num_rays=case['n'], distribution='random')
             px, py = np.array(wf.distribution.x, float).copy(), np.array(wf.distribution.y, float).copy()
+        elif case['dist'] != 'random-seeded' and case['seed'] % 2 == 0:
+            # named distribution handed over BY NAME; a second analysis with the same name and another ray count is made
+            # before the documented samples (wf.distribution) are read: they must still be the ones wf was evaluated on
+            wf = Wavefront(lens, fields=[(0.0, Hy)], wavelengths=[wl], num_rays=case['n'], distribution=case['dist'])
+            Wavefront(lens, fields=[(0.0, 0.0)], wavelengths=[wl], num_rays=case['n'] + 2, distribution=case['dist'])
+            px, py = np.array(wf.distribution.x, float).copy(), np.array(wf.distribution.y, float).copy()
+            rec.cls('named-distribution-read-late')
+            if len(px) != len(np.ravel(wf.data[0][0][0])):
+                rec.check('opd-vs-reference-sphere', False, key='opd-vs-reference-sphere:samples-not-those-of-the-data',
+                          msg=f"Wavefront(distribution='{case['dist']}', num_rays={case['n']}).distribution holds {len(px)} points "
+                              f"but its data {len(np.ravel(wf.data[0][0][0]))} (after a second analysis with the same name)")
+                return
         else:
             d = make_dist(case['dist'], case['n'], case['seed'])
             px, py = np.array(d.x, float).copy(), np.array(d.y, float).copy()
